@@ -321,6 +321,35 @@ def run(P, rep, tier):
     if not done:
         raise AnalysisError('tree construction produced no path')
 
+    # ---- R9 one list per child ---------------------------------------------------------------------------
+    r9 = rep.rule('C05-R9', 'in a constructed tree every child section is an element of at most one list of its parent '
+                  '(no second, separately stored list that goes stale when the first is edited)', reference=3)
+    I9 = Interp(P)
+    done9 = False
+    for path in I9.explore(lambda: D.build_tree(I9)):
+        if path.outcome != 'return':
+            raise AnalysisError('building a tree raises')
+        from sa.values import AList as _AList, AObj as _AObj
+        for o in all_objects(path.value['DiffX']):
+            lists = [(k, v) for k, v in o.attrs.items() if isinstance(v, _AList)]
+            dup = {}
+            for k, v in lists:
+                for it in v.items:
+                    if isinstance(it, _AObj):
+                        dup.setdefault(id(it), (it, []))[1].append(k)
+            bad = sorted({tuple(ks) for it, ks in dup.values() if len(ks) > 1})
+            if bad:
+                rep.violation(r9, 'two-lists:%s:%s' % (o.cls.name, '/'.join(bad[0])), '%s:%d' % (o.cls.module.relpath, o.cls.node.lineno),
+                              '%s keeps the same child sections in the separately stored lists %s: editing one of them (sorting, '
+                              'removing, inserting) leaves the other stale, so what is written or compared is not the tree the caller sees'
+                              % (o.cls.name, list(bad[0])), path=[o.cls.name])
+            elif lists:
+                rep.ok(r9, o.cls.name, [k for k, _ in lists])
+        done9 = True
+        break
+    if not done9:
+        raise AnalysisError('tree construction produced no path')
+
     # ---- R5 length is the only option dropped -----------------------------------------------------
     r5 = rep.rule('C05-R5', 'the DOM reader drops "length" from stored options and nothing else; only empty content is skipped', reference=2)
     from sa.props.c06 import verbatim_rule
